@@ -254,7 +254,9 @@ func c16Gen(seed int64, idx int) *c16Case {
 		if r.Chance(1, 2) {
 			pt := core.Pick(r, []string{"[a-z]*", "ab+c", "a.c", "(x|yz)+", "[^0-9]*", ".*", "[a-zé]{2,4}", "日+",
 				// top-level alternations: the implicit anchors must bind to the whole pattern, not to the first and last branch
-				"(ab)|(yz)", "a|yz", "(x+)|(c)", "ab|c|(yz)", "(a.c)|(x)"})
+				"(ab)|(yz)", "a|yz", "(x+)|(c)", "ab|c|(yz)", "(a.c)|(x)",
+				// multi-character escapes inside a bracket expression
+				`[\w.-]+`, `[a-z][\w\-]*(:[\w\-]+)?`, `[\W0-9]+`, `[\d.]+x?`, `[\sa]*c`, `[\w/]+`})
 			ps := yang.S("pattern", pt)
 			if c.msgOn == "" {
 				custom(ps, "pattern")
@@ -284,6 +286,9 @@ func c16Gen(seed int64, idx int) *c16Case {
 				probe(strings.Repeat("aé日😀", 4)[:0] + string([]rune(strings.Repeat("aé日😀", 4))[:n]))
 			}
 		}
+		for _, s := range []string{"a.b-c", "eth0", "ab-", "a b", "-]", "x.-]", "a/b", "a:b-c", "a:", "0.5", "1.2.3x", " a c", "\tc", "!?", "!0?", "a0"} {
+			probe(s)
+		}
 		// byte sequences that are not UTF-8 (a stray byte, a cut sequence, an encoded surrogate, an overlong form)
 		for _, s := range []string{"\xff", "a\xc3", "\xed\xa0\x80", "\xc0\x80", "ab\xfe", "\xf8\x88\x80\x80\x80"} {
 			probe(s)
@@ -295,6 +300,19 @@ func c16Gen(seed int64, idx int) *c16Case {
 		for _, s := range []string{"abc", "abbbc", "ab", "abcd", "xabc", "a\nc", "axc", "x", "yz", "xyzx", "xy", "ééé", "日日", "日a", "ABC", "a1", "", " ", "abc ", "\xff",
 			"ab!", "!yz", "abyz", "xxq", "qc", "a", "c", "ayz", "abx"} {
 			probe(s)
+		}
+		for _, pt := range c.model.Pats {
+			if strings.Contains(pt, `\w`) || strings.Contains(pt, `\W`) || strings.Contains(pt, `\s`) || strings.Contains(pt, `\d`) {
+				// (which characters outside ASCII letters and digits are word characters, digits or blanks differs
+				// between XSD and the expression library: asserted on plain ASCII text only)
+				for _, pr := range c.probes {
+					for _, ch := range pr {
+						if ch >= 0x80 || ch == '_' || ch < 0x20 && ch != '\t' {
+							c.unassert[pr] = true
+						}
+					}
+				}
+			}
 		}
 	case 4: // enumeration / boolean / empty / bits / instance-identifier
 		switch r.Intn(5) {
